@@ -90,6 +90,9 @@ Proof.
   - break_step E; apply (Inv2_frame tr s); auto.
   - break_step E; apply (Inv2_frame tr s'); auto.
   - break_step E; apply (Inv2_frame tr s'); auto.
+  - break_step E; apply (Inv2_frame tr s); auto.
+  - break_step E; apply (Inv2_frame tr s); auto.
+  - discriminate E.
 Qed.
 
 Lemma Inv2_run cap tr : forall s, run cap init tr = Some s -> Inv2 tr s.
